@@ -6,7 +6,7 @@
     paused revision. *)
 From Coq Require Import List NArith ZArith Bool Lia.
 From PKO Require Import Util Base BaseProofs Owner OwnerProofs Api ApiProofs Phase PhaseProofs TeardownProofs ObjectSet ObjectSetProofs
-  AdoptProofs Deployment DeploymentProofs.
+  AdoptProofs SetMonLemmas Deployment DeploymentProofs.
 Import ListNotations.
 Local Open Scope N_scope.
 
@@ -774,3 +774,464 @@ Section Example.
     split; [vm_compute; intros H; discriminate H|]. split; [reflexivity|]. vm_compute; intros H; discriminate H.
   Qed.
 End Example.
+
+(** * Part 4: the invariant behind status.controllerOf of a paused revision *)
+(** ** What a deployment pass does to the status and the lifecycle state of the ObjectSets *)
+Definition sstat (x : dset) := (os_id (ds_set x), sconds x, os_ctrlof (ds_set x), srev x, os_phases (ds_set x), os_prev (ds_set x)).
+
+Section StatusFrame.
+  Variable fault : option (nat * bool).
+
+  (** Every ObjectSet after the requests is a new one (empty status) or an old one with its status, whose lifecycle state is
+      the old one or the one of an Update sent in between. *)
+  Definition sfr (st0 st : pst) (es : list dev) : Prop :=
+    p_evs st = p_evs st0 ++ es /\
+    forall x', In x' (sets_of st) ->
+      (exists x, In x (sets_of st0) /\ sstat x' = sstat x /\
+                 (slife x' = slife x \/ exists pbp r, In (DUpdate (sname x') (slife x') pbp r) es)) \/
+      (sconds x' = [] /\ os_ctrlof (ds_set x') = []).
+
+  Lemma sstat_name x y : sstat x = sstat y -> sname x = sname y.
+  Proof. unfold sstat, sname. intros H. injection H as H _. now rewrite H. Qed.
+
+  Lemma sfr_same st st' es : p_w st' = p_w st -> p_evs st' = p_evs st ++ es -> sfr st st' es.
+  Proof. intros Hw He. split; [exact He|]. unfold sets_of. rewrite Hw. intros x' Hx. left. exists x'. auto. Qed.
+
+  Lemma sfr_trans a b c e1 e2 : sfr a b e1 -> sfr b c e2 -> sfr a c (e1 ++ e2).
+  Proof.
+    intros [E1 F1] [E2 F2]. split; [rewrite E2, E1; now rewrite app_assoc|].
+    intros x'' Hx. destruct (F2 x'' Hx) as [(x' & Hx' & S2 & L2)|Hnew]; [|now right].
+    destruct (F1 x' Hx') as [(x & Hx0 & S1 & L1)|[Hc Hk]].
+    - left. exists x. split; [exact Hx0|]. split; [congruence|].
+      destruct L2 as [L2|(pbp & r & Hi)]; [|right; exists pbp, r; apply in_or_app; now right].
+      destruct L1 as [L1|(pbp & r & Hi)]; [left; congruence|]. right. exists pbp, r. apply in_or_app. left.
+      rewrite (sstat_name _ _ S2), L2. exact Hi.
+    - right. unfold sstat in S2. injection S2 as _ Hc2 Hk2 _ _ _. split; congruence.
+  Qed.
+
+  Lemma sfr_upd st s life pbp : exists es, sfr st (fst (upd_req fault st s life pbp)) es.
+  Proof.
+    unfold upd_req. destruct (p_dead st); [exists []; apply sfr_same; [reflexivity|now rewrite app_nil_r]|].
+    assert (Hgo : forall lost : bool,
+              match find_dset (dw_sets (p_w st)) (sname s) with
+              | None => exists es, sfr st (emit st (p_w st) [DUpdate (sname s) life pbp WNotFound] true) es
+              | Some cur =>
+                  exists es, sfr st (fst (if negb (os_rv (ds_set cur) =? os_rv (ds_set s))
+                                         then (emit st (p_w st) [DUpdate (sname s) life pbp WConflict] true, s)
+                                         else (emit st (with_sets (p_w st) (put_dset (dw_sets (p_w st)) (set_life cur life pbp (w_rv (dw_w (p_w st))))) (bump_rv (dw_w (p_w st))))
+                                                    [DUpdate (sname s) life pbp (if lost then WLost else WOk)] lost,
+                                               set_life cur life pbp (w_rv (dw_w (p_w st)))))) es
+              end).
+    { intros lost. destruct (find_dset (dw_sets (p_w st)) (sname s)) as [cur|] eqn:Ef.
+      - destruct (negb _); cbn [fst]; [eexists; apply sfr_same; reflexivity|].
+        eexists. split; [reflexivity|]. unfold sets_of. cbn [emit p_w with_sets dw_sets]. intros x' Hx.
+        pose proof (find_dset_some _ _ _ Ef) as [Hcin Hcn].
+        apply in_put_dset in Hx. destruct Hx as [->|Hx]; [|left; exists x'; auto].
+        left. exists cur. split; [exact Hcin|]. split; [reflexivity|]. right. exists pbp, (if lost then WLost else WOk).
+        left. change (sname (set_life cur life pbp (w_rv (dw_w (p_w st))))) with (sname cur). now rewrite Hcn.
+      - eexists. apply sfr_same; reflexivity. }
+    destruct (fault_now fault st).
+    - specialize (Hgo false). destruct (find_dset _ _); [destruct (negb _)|]; exact Hgo.
+    - eexists. apply sfr_same; reflexivity.
+    - specialize (Hgo true). destruct (find_dset _ _); [destruct (negb _)|]; exact Hgo.
+  Qed.
+
+  Lemma sfr_del st n : exists es, sfr st (del_req fault st n) es.
+  Proof.
+    unfold del_req. destruct (p_dead st); [exists []; apply sfr_same; [reflexivity|now rewrite app_nil_r]|].
+    assert (Hgo : forall lost : bool, exists es,
+              sfr st (match find_dset (dw_sets (p_w st)) n with
+                      | None => emit st (p_w st) [DDelete n DlNotFound] false
+                      | Some s =>
+                          emit st (if os_fin (ds_set s) || os_orphan (ds_set s)
+                                   then if os_deleting (ds_set s) then p_w st
+                                        else with_sets (p_w st) (put_dset (dw_sets (p_w st)) (set_deleting s (w_rv (dw_w (p_w st))))) (bump_rv (dw_w (p_w st)))
+                                   else with_sets (p_w st) (del_dset (dw_sets (p_w st)) n) (dw_w (p_w st)))
+                               [DDelete n (if lost then DlLost else DlOk)] lost
+                      end) es).
+    { intros lost. destruct (find_dset (dw_sets (p_w st)) n) as [s|] eqn:Ef; [|eexists; apply sfr_same; reflexivity].
+      pose proof (find_dset_some _ _ _ Ef) as [Hsin Hsn].
+      destruct (os_fin (ds_set s) || os_orphan (ds_set s)).
+      - destruct (os_deleting (ds_set s)); [eexists; apply sfr_same; reflexivity|].
+        eexists. split; [reflexivity|]. unfold sets_of. cbn [emit p_w with_sets dw_sets]. intros x' Hx.
+        apply in_put_dset in Hx. destruct Hx as [->|Hx]; [|left; exists x'; auto].
+        left. exists s. split; [exact Hsin|]. split; [reflexivity|now left].
+      - eexists. split; [reflexivity|]. unfold sets_of. cbn [emit p_w with_sets dw_sets]. intros x' Hx.
+        apply in_del_dset in Hx. left. exists x'. tauto. }
+    destruct (fault_now fault st); [apply (Hgo false)|eexists; apply sfr_same; reflexivity|apply (Hgo true)].
+  Qed.
+
+  Lemma sfr_create st d prev : exists es, sfr st (fst (create_req fault st (new_set d prev))) es.
+  Proof.
+    unfold create_req. destruct (p_dead st); [exists []; apply sfr_same; [reflexivity|now rewrite app_nil_r]|].
+    set (s := new_set d prev).
+    destruct (fault_now fault st); cbn [fst].
+    - destruct (find_dset (dw_sets (p_w st)) (sname s)); cbn [fst]; [eexists; apply sfr_same; reflexivity|].
+      eexists. split; [reflexivity|]. unfold sets_of. cbn [emit p_w with_fresh with_sets dw_sets]. intros x' Hx.
+      apply in_app_or in Hx. destruct Hx as [Hx|[<-|[]]]; [left; exists x'; auto|right]. split; reflexivity.
+    - eexists. apply sfr_same; reflexivity.
+    - destruct (find_dset (dw_sets (p_w st)) (sname s)); cbn [fst]; [eexists; apply sfr_same; reflexivity|].
+      eexists. split; [reflexivity|]. unfold sets_of. cbn [emit p_w with_fresh with_sets dw_sets]. intros x' Hx.
+      apply in_app_or in Hx. destruct Hx as [Hx|[<-|[]]]; [left; exists x'; auto|right]. split; reflexivity.
+  Qed.
+
+  Lemma sfr_status st d : exists es, sfr st (status_req fault st d) es.
+  Proof.
+    unfold status_req. destruct (p_dead st); [exists []; apply sfr_same; [reflexivity|now rewrite app_nil_r]|].
+    destruct (fault_now fault st).
+    - destruct (status_eqb_d (dw_dep (p_w st)) d); [eexists; apply sfr_same; reflexivity|].
+      eexists. split; [reflexivity|]. unfold sets_of. cbn. intros x' Hx. left. exists x'. auto.
+    - eexists. apply sfr_same; reflexivity.
+    - destruct (status_eqb_d (dw_dep (p_w st)) d); [eexists; apply sfr_same; reflexivity|].
+      eexists. split; [reflexivity|]. unfold sets_of. cbn. intros x' Hx. left. exists x'. auto.
+  Qed.
+
+  Lemma reach_sfr st0 st : reach fault st0 st -> exists es, sfr st0 st es.
+  Proof.
+    induction 1 as [|st H (es & IH)|st b H (es & IH)|st s life pbp H (es & IH)|st n H (es & IH)|st d prev H (es & IH)|st d H (es & IH)].
+    - exists []. apply sfr_same; [reflexivity|now rewrite app_nil_r].
+    - exists (es ++ []). eapply sfr_trans; [exact IH|]. apply sfr_same; [apply read_req_w|now rewrite read_req_evs, app_nil_r].
+    - exists (es ++ []). eapply sfr_trans; [exact IH|]. apply sfr_same; [apply get_req_w|now rewrite get_req_evs, app_nil_r].
+    - destruct (sfr_upd st s life pbp) as (e2 & F). exists (es ++ e2). eapply sfr_trans; eauto.
+    - destruct (sfr_del st n) as (e2 & F). exists (es ++ e2). eapply sfr_trans; eauto.
+    - destruct (sfr_create st d prev) as (e2 & F). exists (es ++ e2). eapply sfr_trans; eauto.
+    - destruct (sfr_status st d) as (e2 & F). exists (es ++ e2). eapply sfr_trans; eauto.
+  Qed.
+End StatusFrame.
+
+Section PassStatus.
+  Variable hash : N -> option N -> N.
+  Variable fault : option (nat * bool).
+  Variable slices : N -> option (list pobj).
+  Variable sliceaware rev0ok : bool.
+
+  Theorem dep_pass_status stale w w' evs r :
+    dep_pass_sh hash fault slices sliceaware rev0ok stale w = (w', evs, r) ->
+    forall x', In x' (dw_sets w') ->
+      (exists x, In x (dw_sets w) /\ sstat x' = sstat x /\
+                 (slife x' = slife x \/ exists pbp ur, In (DUpdate (sname x') (slife x') pbp ur) evs)) \/
+      (sconds x' = [] /\ os_ctrlof (ds_set x') = []).
+  Proof.
+    intros Hp. destruct (dep_pass_unfold _ _ _ _ _ _ _ _ _ _ Hp) as (st3 & d2 & -> & -> & _ & Hc).
+    assert (Hr : reach fault (st_init w) (status_req fault st3 d2)).
+    { constructor. assert (H0 : reach fault (st_init w) (st_listed fault w)) by (unfold st_listed; repeat constructor).
+      destruct Hc as [(_ & -> & _)|(_ & stp & mem & Epl & Hc)]; [assumption|].
+      pose proof (pause_loop_reach _ _ _ _ _ _ _ H0 Epl) as H1.
+      destruct Hc as [(_ & -> & _)|(_ & sta & d3 & mem' & Enr & Ear & _)]; [assumption|].
+      eapply archive_reach; [|exact Ear]. eapply new_revision_reach; eauto. }
+    destruct (reach_sfr fault _ _ Hr) as (es & He & F). cbn [st_init p_evs app] in He. subst es.
+    unfold sets_of in F. cbn [st_init p_w with_fresh dw_sets] in *. exact F.
+  Qed.
+End PassStatus.
+
+(** ** What a pass of the ObjectSet controller leaves in the stored status of its ObjectSet *)
+Section OwnPass.
+  Variable force : bool.
+  Variable sw0 : sworld.
+  Variables k ns n : N.
+  Variable mem0 : oset.
+  Hypothesis Hf0 : find_set (sw_sets sw0) k ns n = Some mem0.
+  Hypothesis Hnd0 : NoDup (map (fun y => oi_name (os_id y)) (sw_sets sw0)).
+
+  Definition pf (cs : list cond) : bool := cond_true cs CPaused.
+  Definition same_frame (m : oset) : Prop :=
+    os_id m = os_id mem0 /\ os_life m = os_life mem0 /\ os_phases m = os_phases mem0 /\ os_prev m = os_prev mem0.
+  (** Paused=True is only ever newly written for a paused spec. *)
+  Definition pfok (m : oset) : Prop := pf (os_conds m) = true -> pf (os_conds mem0) = true \/ os_life mem0 = LPaused.
+
+  (** [S3]: "the status computed after the phase loop of this pass" (instantiated below). *)
+  Variable S3 : oset -> Prop.
+  Hypothesis S3_ext : forall a b, os_ctrlof a = os_ctrlof b -> os_revision a = os_revision b -> S3 a -> S3 b.
+
+  Definition S1 (m : oset) : Prop :=
+    os_ctrlof m = os_ctrlof mem0 /\ pf (os_conds m) = pf (os_conds mem0) /\ (os_revision m = os_revision mem0 \/ os_revision m <> 0%Z).
+  Definition S2 (m : oset) : Prop :=
+    os_ctrlof m = os_ctrlof mem0 /\ os_revision m = 0%Z /\ os_revision mem0 = 0%Z /\ os_prev mem0 <> [].
+  Definition S4 (m : oset) : Prop := os_ctrlof m = [].
+  Definition stat_ok (m : oset) : Prop := pfok m /\ (S1 m \/ S2 m \/ S4 m \/ S3 m).
+  Definition Pst (m : oset) : Prop := same_frame m /\ stat_ok m.
+  (** every ObjectSet is an old one or the rewritten target *)
+  Definition OT (sw : sworld) : Prop := forall y, In y (sw_sets sw) -> In y (sw_sets sw0) \/ Pst y.
+  (** the in-memory copy: status as read, except for a revision just computed *)
+  Definition IM (m : oset) : Prop :=
+    same_frame m /\ os_ctrlof m = os_ctrlof mem0 /\ os_conds m = os_conds mem0 /\ (os_revision m = os_revision mem0 \/ os_revision m <> 0%Z).
+
+  Lemma stat_ok_ext a b :
+    os_ctrlof a = os_ctrlof b -> os_conds a = os_conds b -> os_revision a = os_revision b -> stat_ok a -> stat_ok b.
+  Proof.
+    intros E1 E2 E3 [Hp H]. split; [unfold pfok in *; now rewrite <- E2|].
+    destruct H as [(A & B & C)|[(A & B & C & D)|[A|H]]].
+    - left. unfold S1. now rewrite <- E1, <- E2, <- E3.
+    - right; left. unfold S2. now rewrite <- E1, <- E3.
+    - right; right; left. unfold S4. now rewrite <- E1.
+    - right; right; right. eapply S3_ext; eauto.
+  Qed.
+
+  Lemma mem0_key : oi_kind (os_id mem0) = k /\ oi_ns (os_id mem0) = ns /\ oi_name (os_id mem0) = n.
+  Proof. eapply find_set_id; eauto. Qed.
+
+  Lemma Pst_mem0 : Pst mem0.
+  Proof. split; [repeat split|]. split; [intros H; now left|]. left. repeat split. now left. Qed.
+
+  Lemma IM_mem0 : IM mem0.
+  Proof. repeat split. now left. Qed.
+
+  Lemma IM_stat m : IM m -> stat_ok m.
+  Proof. intros (_ & A & B & C). split; [intros H; left; unfold pf in *; now rewrite <- B|]. left. split; [exact A|]. split; [now rewrite B|exact C]. Qed.
+
+  Lemma OT_init : OT sw0.
+  Proof. intros y Hy. now left. Qed.
+
+  (** The stored ObjectSet found under the target's key satisfies [Pst]. *)
+  Lemma stored_Pst sw m st :
+    OT sw -> os_id m = os_id mem0 ->
+    find_set (sw_sets sw) (oi_kind (os_id m)) (oi_ns (os_id m)) (oi_name (os_id m)) = Some st -> Pst st.
+  Proof.
+    intros Ho Hid Hf. pose proof (find_set_in _ _ _ _ _ Hf) as Hin. destruct (Ho _ Hin) as [Hold|HP]; [|exact HP].
+    destruct (find_set_id _ _ _ _ _ Hf) as (_ & _ & Hn). rewrite Hid in Hn.
+    assert (st = mem0); [|subst; apply Pst_mem0].
+    apply (NoDup_map_eq (fun y => oi_name (os_id y)) (sw_sets sw0)); auto. eapply find_set_in; eauto.
+  Qed.
+
+  Lemma upd_OT sw m sw' m' ok :
+    OT sw -> same_frame m -> stat_ok m -> update_status sw m = (sw', m', ok) ->
+    OT sw' /\ same_frame m' /\ os_ctrlof m' = os_ctrlof m /\ os_conds m' = os_conds m /\ os_revision m' = os_revision m /\
+    os_remotes m' = os_remotes m.
+  Proof.
+    intros Ho Hfr Hs Hu. destruct (update_status_shape _ _ _ _ _ Hu) as [[-> ->]|(stored & Hfs & _ & _ & -> & -> & _)]; [auto 7|].
+    destruct Hfr as (Hid & Hl & Hp & Hv).
+    destruct (stored_Pst _ _ _ Ho Hid Hfs) as [(Sid & Sl & Sp & Sv) _].
+    assert (HP : Pst (with_status stored m (w_rv (sw_w sw)))).
+    { split; [repeat split; cbn; assumption|]. eapply stat_ok_ext; [| | |exact Hs]; reflexivity. }
+    split; [|split; [repeat split; cbn; assumption|repeat split]].
+    intros y Hy. cbn [sw_sets] in Hy. apply in_put_set in Hy. destruct Hy as [->|Hy]; [now right|now apply Ho].
+  Qed.
+
+  Lemma patch_OT sw m fin sw' r :
+    OT sw -> os_id m = os_id mem0 -> patch_finalizer sw m fin = (sw', r) ->
+    OT sw' /\ forall m', r = Some m' -> Pst m'.
+  Proof.
+    intros Ho Hid. unfold patch_finalizer.
+    destruct (find_set (sw_sets sw) _ _ _) as [stored|] eqn:Hfs; [|intros H; injection H as <- <-; split; [exact Ho|discriminate]].
+    destruct (negb _); [intros H; injection H as <- <-; split; [exact Ho|discriminate]|].
+    pose proof (stored_Pst _ _ _ Ho Hid Hfs) as [(Sid & Sl & Sp & Sv) Hst].
+    assert (HP : Pst (set_fin stored fin (w_rv (sw_w sw)))).
+    { split; [repeat split; cbn; assumption|]. eapply stat_ok_ext; [| | |exact Hst]; reflexivity. }
+    destruct (negb fin && os_deleting stored && negb (os_orphan stored)); intros H; injection H as <- <-.
+    - split; [|intros m' E; now injection E as <-]. intros y Hy. cbn [sw_sets] in Hy. apply in_del_set in Hy. now apply Ho.
+    - split; [|intros m' E; now injection E as <-]. intros y Hy. cbn [sw_sets] in Hy. apply in_put_set in Hy.
+      destruct Hy as [->|Hy]; [now right|now apply Ho].
+  Qed.
+
+  Lemma OT_sets sw sw' : sw_sets sw' = sw_sets sw -> OT sw -> OT sw'.
+  Proof. intros E H y Hy. rewrite E in Hy. now apply H. Qed.
+
+  Lemma paused_cond_true phs m : pf (paused_cond phs m) = true -> os_life m = LPaused.
+  Proof.
+    unfold paused_cond, pf.
+    destruct (match os_remotes m with [] => _ | _ => _ end) as [pp un].
+    destruct (un || _ || _).
+    - unfold cond_true. rewrite (find_set_cond_same _ (mk_cond m CPaused SUnknown RPartiallyPaused)). cbn. discriminate.
+    - destruct (lifecycle_eqb (os_life m) LPaused) eqn:E; [intros _; destruct (os_life m); try discriminate; reflexivity|].
+      unfold cond_true. rewrite find_remove_cond_same. discriminate.
+  Qed.
+
+  Lemma pf_set_other cs c : cd_type c <> CPaused -> pf (set_cond cs c) = pf cs.
+  Proof. intros H. unfold pf, cond_true. now rewrite find_set_cond_other. Qed.
+  Lemma pf_remove_other cs t : t <> CPaused -> pf (remove_cond cs t) = pf cs.
+  Proof. intros H. unfold pf, cond_true. now rewrite find_remove_cond_other. Qed.
+
+  Lemma scan_prev_ge' sets s names : forall latest x, scan_prev sets s names latest = Some (Some x) -> (latest <= x)%Z.
+  Proof.
+    induction names as [|a l IH]; intros latest x; cbn.
+    - intros H. injection H as <-. lia.
+    - destruct (find_set sets _ _ a) as [p|]; [|discriminate]. destruct (Z.eqb (os_revision p) 0); [discriminate|].
+      intros H. apply IH in H. lia.
+  Qed.
+
+  (** revision reconciler *)
+  Lemma revision_OT sw mem sw1 evs1 mem1 rr :
+    OT sw -> IM mem -> revision_pass sw mem = (sw1, evs1, mem1, rr) ->
+    OT sw1 /\ IM mem1 /\
+    (rr = RevGo -> os_revision mem1 <> 0%Z) /\
+    (rr = RevRequeue -> os_revision mem1 = 0%Z /\ os_revision mem0 = 0%Z /\ os_prev mem0 <> []).
+  Proof.
+    intros Ho Him. unfold revision_pass.
+    destruct (negb (Z.eqb (os_revision mem) 0)) eqn:E0.
+    { intros H. injection H as <- _ <- <-. apply negb_true_iff, Z.eqb_neq in E0.
+      split; [exact Ho|]. split; [exact Him|]. split; [intros _; exact E0|discriminate]. }
+    apply negb_false_iff, Z.eqb_eq in E0.
+    pose proof Him as Him'. destruct Him as (Hfr & Hc & Hcs & Hrv). assert (Hr0 : os_revision mem0 = 0%Z) by (destruct Hrv; congruence).
+    destruct (os_prev mem) eqn:Epv.
+    { intros H. injection H as <- _ <- <-. split; [exact Ho|]. split; [|split; [intros _; cbn; discriminate|discriminate]].
+      split; [exact Hfr|]. split; [exact Hc|]. split; [exact Hcs|]. right. cbn. discriminate. }
+    assert (Hpv0 : os_prev mem0 <> []) by (destruct Hfr as (_ & _ & _ & Hv); rewrite <- Hv, Epv; discriminate).
+    destruct (scan_prev (sw_sets sw) mem (n0 :: l) 0) as [[latest|]|] eqn:Es.
+    - destruct (update_status sw (set_revision mem (latest + 1))) as [[sw2 m2] ok] eqn:Eu.
+      assert (Hl : (latest + 1 <> 0)%Z) by (apply scan_prev_ge' in Es; lia).
+      assert (Hst1 : stat_ok (set_revision mem (latest + 1))).
+      { apply IM_stat. split; [exact Hfr|]. split; [exact Hc|]. split; [exact Hcs|]. right. exact Hl. }
+      destruct (upd_OT sw (set_revision mem (latest + 1)) sw2 m2 ok Ho Hfr Hst1 Eu) as (Ho2 & Hfr2 & A & B & C & _).
+      intros H. injection H as <- _ <- <-. split; [exact Ho2|]. split.
+      + split; [exact Hfr2|]. split; [now rewrite A|]. split; [now rewrite B|]. right. now rewrite C.
+      + split; [intros _; now rewrite C|]. destruct ok; discriminate.
+    - intros H. injection H as <- _ <- <-. split; [exact Ho|]. split; [exact Him'|]. split; [discriminate|]. intros _. auto.
+    - intros H. injection H as <- _ <- <-. split; [exact Ho|]. split; [exact Him'|]. split; discriminate.
+  Qed.
+
+  (** the status computed after the phase loop *)
+  Hypothesis S3_final : forall mem1 sw1 sw2 pevs rem ctrlof failed,
+    IM mem1 -> os_revision mem1 <> 0%Z -> w_store (sw_w sw1) = w_store (sw_w sw0) ->
+    dup_count [] (map (spec_key mem1) (all_objects mem1)) = O ->
+    reconcile_phases_m force sw1 mem1 (as_owner mem1) (lookup_prev (sw_sets sw1) mem1) (os_phases mem1) [] (os_remotes mem1)
+      = (sw2, pevs, rem, MOk ctrlof failed) ->
+    forall m, os_ctrlof m = ctrlof -> os_revision m = os_revision mem1 -> S3 m.
+
+  Lemma final_status_fields phs m ctrlof failed :
+    os_ctrlof (final_status phs m ctrlof failed) = ctrlof /\ os_revision (final_status phs m ctrlof failed) = os_revision m /\
+    os_id (final_status phs m ctrlof failed) = os_id m /\ os_life (final_status phs m ctrlof failed) = os_life m /\
+    os_phases (final_status phs m ctrlof failed) = os_phases m /\ os_prev (final_status phs m ctrlof failed) = os_prev m /\
+    (pf (os_conds (final_status phs m ctrlof failed)) = true -> os_life m = LPaused).
+  Proof.
+    unfold final_status. cbv zeta. repeat (split; [reflexivity|]). cbn [os_conds set_conds]. intros H. apply paused_cond_true in H. exact H.
+  Qed.
+
+  Definition STO (sw : sworld) : Prop := w_store (sw_w sw) = w_store (sw_w sw0).
+
+  (** the body of an active pass *)
+  Lemma active_body_OT sw evs0 mem sw' evs r :
+    OT sw -> STO sw -> IM mem -> active_body force sw evs0 mem = (sw', evs, r) -> OT sw'.
+  Proof.
+    intros Ho Hs Him. unfold active_body.
+    destruct (revision_pass sw mem) as [[[sw1 evs1] mem1] rr] eqn:Erev.
+    destruct (revision_OT _ _ _ _ _ _ Ho Him Erev) as (Ho1 & Him1 & Hgo & Hrq).
+    assert (Hs1 : STO sw1).
+    { unfold STO in *. rewrite <- Hs. unfold revision_pass in Erev.
+      destruct (negb _); [now injection Erev as <- _ _ _|]. destruct (os_prev mem); [now injection Erev as <- _ _ _|].
+      destruct (scan_prev _ _ _ _) as [[latest|]|]; try (now injection Erev as <- _ _ _).
+      destruct (update_status sw _) as [[sw2 m2] ok] eqn:Eu. injection Erev as <- _ _ _. now destruct (update_status_store _ _ _ _ _ Eu). }
+    destruct Him1 as (Hfr1 & Hc1 & Hcs1 & Hrv1).
+    (* a status with only Available rewritten *)
+    assert (Hfail : forall (mx : oset) swx evsx rs swf evsf rf, OT swx -> same_frame mx -> os_ctrlof mx = os_ctrlof mem0 ->
+              os_conds mx = os_conds mem0 -> (os_revision mx = os_revision mem0 \/ os_revision mx <> 0%Z) ->
+              (let m' := set_conds mx (set_cond (os_conds mx) (mk_cond mx CAvailable SFalse rs)) in
+               let '(sw'', _, ok) := update_status swx m' in
+               (sw'', evsx ++ [status_ev m' ok], if ok then SDone true else SError)) = (swf, evsf, rf) -> OT swf).
+    { intros mx swx evsx rs swf evsf rf Hox Hfx Hcx Hcsx Hrx. cbv zeta.
+      destruct (update_status swx _) as [[sw3 m3] ok] eqn:Eu. intros H. injection H as <- _ _.
+      refine (proj1 (upd_OT _ _ _ _ _ Hox _ _ Eu)); [exact Hfx|].
+      split; [intros Hp; left; cbn [os_conds set_conds] in Hp; rewrite pf_set_other in Hp by (cbn; discriminate); now rewrite <- Hcsx|].
+      left. split; [exact Hcx|]. split; [|exact Hrx]. cbn [os_conds set_conds]. rewrite pf_set_other by (cbn; discriminate). now rewrite Hcsx. }
+    destruct rr.
+    - (* RevGo *)
+      destruct (Nat.ltb 0 (dup_count [] (map (spec_key mem1) (all_objects mem1)))) eqn:Edup.
+      + intros H. eapply (Hfail mem1); eauto.
+      + apply Nat.ltb_ge in Edup. assert (Hdup : dup_count [] (map (spec_key mem1) (all_objects mem1)) = O) by lia.
+        destruct (reconcile_phases_m force sw1 mem1 (as_owner mem1) _ _ [] (os_remotes mem1)) as [[[sw2 pevs] rem] pr] eqn:Erp.
+        destruct (rpm_inv force _ _ _ _ _ _ _ _ _ _ _ Erp) as (Hsets & _).
+        pose proof (OT_sets _ _ Hsets Ho1) as Ho2.
+        assert (Hfr2 : same_frame (set_remotes mem1 rem)) by exact Hfr1.
+        destruct pr as [e| | |ctrlof failed].
+        * destruct e; intros H; try (injection H as <- _ _; exact Ho2); eapply (Hfail (set_remotes mem1 rem)); eauto.
+        * intros H. injection H as <- _ _. exact Ho2.
+        * intros H. eapply (Hfail (set_remotes mem1 rem)); eauto.
+        * destruct (update_status sw2 (final_status (sw_phases sw2) (set_remotes mem1 rem) ctrlof failed)) as [[sw3 m3] ok] eqn:Eu.
+          intros H. injection H as <- _ _.
+          destruct (final_status_fields (sw_phases sw2) (set_remotes mem1 rem) ctrlof failed) as (F1 & F2 & F3 & F4 & F5 & F6 & F7).
+          refine (proj1 (upd_OT _ _ _ _ _ Ho2 _ _ Eu)).
+          -- destruct Hfr2 as (A & B & C & D). repeat split; congruence.
+          -- split; [intros Hp; right; rewrite <- (proj1 (proj2 Hfr1)); now apply F7|].
+             right; right; right.
+             assert (Him1' : IM mem1) by exact (conj Hfr1 (conj Hc1 (conj Hcs1 Hrv1))).
+             assert (Hr1 : os_revision mem1 <> 0%Z) by now apply Hgo.
+             eapply (S3_final mem1 sw1 sw2 pevs rem ctrlof failed); eauto.
+    - (* RevRequeue *)
+      destruct (Hrq eq_refl) as (R1 & R0 & Rp).
+      destruct (update_status sw1 (set_conds mem1 (paused_cond (sw_phases sw1) mem1))) as [[sw2 m2] ok] eqn:Eu.
+      intros H. injection H as <- _ _.
+      refine (proj1 (upd_OT _ _ _ _ _ Ho1 _ _ Eu)); [exact Hfr1|].
+      split; [intros Hp; right; cbn [os_conds set_conds] in Hp; apply paused_cond_true in Hp; now rewrite <- (proj1 (proj2 Hfr1))|].
+      right; left. repeat split; assumption.
+    - intros H. injection H as <- _ _. exact Ho1.
+  Qed.
+
+  Lemma Pst_IM_like m : Pst m -> same_frame m /\ stat_ok m.
+  Proof. auto. Qed.
+
+  (** EnsureCachedFinalizer + body. The in-memory copy is the stored ObjectSet. *)
+  Lemma active_pass_OT sw' evs r : active_pass force sw0 mem0 = (sw', evs, r) -> OT sw'.
+  Proof.
+    unfold active_pass. destruct (os_fin mem0).
+    - apply (active_body_OT sw0 [] mem0); [apply OT_init|reflexivity|apply IM_mem0].
+    - destruct (patch_finalizer sw0 mem0 true) as [sw1 [m|]] eqn:Ep.
+      + intros H. destruct (patch_finalizer_store _ _ _ _ _ Ep) as (Hst & _).
+        destruct mem0_key as (K1 & K2 & K3).
+        assert (Hf0' : find_set (sw_sets sw0) (oi_kind (os_id mem0)) (oi_ns (os_id mem0)) (oi_name (os_id mem0)) = Some mem0) by now rewrite K1, K2, K3.
+        assert (Em : m = set_fin mem0 true (w_rv (sw_w sw0))).
+        { unfold patch_finalizer in Ep. rewrite Hf0', N.eqb_refl in Ep. cbn in Ep. now injection Ep as _ <-. }
+        eapply (active_body_OT sw1 _ m); [exact (proj1 (patch_OT _ _ _ _ _ OT_init eq_refl Ep))|exact Hst| |exact H].
+        subst m. repeat split. now left.
+      + intros H. injection H as <- _ _. exact (proj1 (patch_OT _ _ _ _ _ OT_init eq_refl Ep)).
+  Qed.
+
+  (** handleDeletionAndArchival *)
+  Lemma deletion_pass_OT sw' evs r : deletion_pass force sw0 mem0 = (sw', evs, r) -> OT sw'.
+  Proof.
+    unfold deletion_pass.
+    change (if os_fin mem0 then if os_orphan mem0 then (sw0, [], TdOk true)
+            else teardown_phases_m force sw0 mem0 (as_owner mem0) (rev (os_phases mem0))
+            else (sw0, [], TdOk true)) with (teardown_of force sw0 mem0).
+    destruct (teardown_of force sw0 mem0) as [[sw1 tevs] td] eqn:Etd.
+    pose proof (teardown_of_sets force _ _ _ _ _ Etd) as Hsets.
+    pose proof (OT_sets _ _ Hsets OT_init) as Ho1.
+    set (archived := lifecycle_eqb (os_life mem0) LArchived).
+    (* the status written at the end: Available removed, possibly Archived set, controllerOf kept or emptied *)
+    assert (Hfin : forall swx evsx (mx : oset) swf evsf rf, OT swx -> same_frame mx -> (archived = true -> pfok mx) ->
+              (archived = true -> os_ctrlof mx = [] \/ (os_ctrlof mx = os_ctrlof mem0 /\ pf (os_conds mx) = pf (os_conds mem0) /\ os_revision mx = os_revision mem0)) ->
+              (if negb archived then (swx, evsx, SDone false)
+               else let '(sw'', _, ok) := update_status swx (set_conds mx (remove_cond (os_conds mx) CAvailable)) in
+                    (sw'', evsx ++ [status_ev (set_conds mx (remove_cond (os_conds mx) CAvailable)) ok], if ok then SDone false else SError))
+              = (swf, evsf, rf) -> OT swf).
+    { intros swx evsx mx swf evsf rf Hox Hfx Hpx Hcx. destruct archived; cbn [negb]; [|intros H; now injection H as <- _ _].
+      specialize (Hpx eq_refl). specialize (Hcx eq_refl).
+      destruct (update_status swx _) as [[sw3 m3] ok] eqn:Eu. intros H. injection H as <- _ _.
+      refine (proj1 (upd_OT _ _ _ _ _ Hox _ _ Eu)); [exact Hfx|].
+      split; [intros Hp; apply Hpx; cbn [os_conds set_conds] in Hp; now rewrite pf_remove_other in Hp by discriminate|].
+      destruct Hcx as [Hc|(Hc & Hp & Hr)]; [right; right; left; exact Hc|].
+      left. split; [exact Hc|]. split; [cbn [os_conds set_conds]; now rewrite pf_remove_other by discriminate|now left]. }
+    assert (Hpf0 : pfok mem0) by (intros H; now left).
+    destruct td as [|[|]].
+    - intros H. injection H as <- _ _. exact Ho1.
+    - destruct (os_fin mem0).
+      + destruct (patch_finalizer sw1 mem0 false) as [sw2 [mem2|]] eqn:Ep.
+        * destruct (patch_OT _ _ _ _ _ Ho1 eq_refl Ep) as [Ho2 HP]. destruct (HP mem2 eq_refl) as [Hfr2 [Hpf2 _]].
+          intros H. refine (Hfin sw2 _ (if archived then _ else mem2) _ _ _ Ho2 _ _ _ H); destruct archived eqn:Ea.
+          -- exact Hfr2.
+          -- exact Hfr2.
+          -- intros _ Hp. apply Hpf2. cbn [os_conds set_conds set_ctrlof] in Hp. now rewrite pf_set_other in Hp by (cbn; discriminate).
+          -- discriminate.
+          -- intros _. left. reflexivity.
+          -- discriminate.
+        * intros H. injection H as <- _ _. exact (proj1 (patch_OT _ _ _ _ _ Ho1 eq_refl Ep)).
+      + intros H. refine (Hfin sw1 _ (if archived then _ else mem0) _ _ _ Ho1 _ _ _ H); destruct archived eqn:Ea.
+        -- repeat split.
+        -- repeat split.
+        -- intros _ Hp. left. cbn [os_conds set_conds set_ctrlof] in Hp. now rewrite pf_set_other in Hp by (cbn; discriminate).
+        -- discriminate.
+        -- intros _. left. reflexivity.
+        -- discriminate.
+    - intros H. refine (Hfin sw1 _ (if archived then _ else mem0) _ _ _ Ho1 _ _ _ H); destruct archived eqn:Ea.
+      + repeat split.
+      + repeat split.
+      + intros _ Hp. left. cbn [os_conds set_conds] in Hp. now rewrite pf_set_other in Hp by (cbn; discriminate).
+      + discriminate.
+      + intros _. right. split; [reflexivity|]. split; [cbn [os_conds set_conds]; now rewrite pf_set_other by (cbn; discriminate)|reflexivity].
+      + discriminate.
+  Qed.
+
+  Theorem objectset_pass_OT sw' evs r : objectset_pass force sw0 k ns n = (sw', evs, r) -> OT sw'.
+  Proof.
+    unfold objectset_pass. rewrite Hf0. destruct (cond_true (os_conds mem0) CArchived); [intros H; injection H as <- _ _; apply OT_init|].
+    destruct (os_deleting mem0 || lifecycle_eqb (os_life mem0) LArchived); [apply deletion_pass_OT|apply active_pass_OT].
+  Qed.
+End OwnPass.
